@@ -102,7 +102,7 @@ class Main(Part):
 
     def budget(self, tier):
         return {"quick": dict(examples=1200, shards=4, seconds=100),
-                "thorough": dict(examples=4000, shards=16, seconds=900)}[tier]
+                "thorough": dict(examples=4000, shards=16, seconds=600)}[tier]
 
     def strategy(self, tier):
         return gen.case_of(gen.spec_plain(), max_extent=6 if tier == "quick" else 9)
@@ -129,7 +129,7 @@ class AllLoopOrders(Part):
 
     def budget(self, tier):
         return {"quick": dict(examples=60, shards=2, seconds=100),
-                "thorough": dict(examples=600, shards=16, seconds=900)}[tier]
+                "thorough": dict(examples=600, shards=16, seconds=600)}[tier]
 
     def strategy(self, tier):
         return gen.case_of(gen.spec_plain(), max_extent=5 if tier == "quick" else 7)
